@@ -310,4 +310,31 @@ theorem negative_block_allocates_nothing (m : Mgr) (size : Int) :
 
 example : (Mgr.new 0xf0).nextBlockInt (-3) = (Mgr.new 0xf0, 0, -3) := by decide
 
+/-! ### 7. Injectivity corollaries of the two round trips -/
+
+/-- **Collision-free numbering**: two different numbers that both fit never get the same mark
+(a direct consequence of the round trip, stated because it is the clause of the property). -/
+theorem number_to_mark_injective (mask : Nat) (n1 n2 : Int) (h1 : 0 ≤ n1) (h2 : 0 ≤ n2)
+    (f1 : n1 < 2 ^ popcount mask) (f2 : n2 < 2 ^ popcount mask)
+    (he : mapNumberToMark mask n1 = mapNumberToMark mask n2) : n1 = n2 := by
+  obtain ⟨m1, e1, -, r1⟩ := number_mark_roundtrip mask n1 h1 f1
+  obtain ⟨m2, e2, -, r2⟩ := number_mark_roundtrip mask n2 h2 f2
+  rw [e1, e2] at he
+  have hm : m1 = m2 := Option.some.inj he
+  subst hm
+  rw [r1] at r2
+  have := Option.some.inj r2
+  omega
+
+/-- … and two different marks inside the mask never decode to the same number. -/
+theorem mark_to_number_injective (mask m1 m2 : Nat) (hm : mask < 2 ^ 32)
+    (i1 : m1 &&& mask = m1) (i2 : m2 &&& mask = m2)
+    (he : mapMarkToNumber mask m1 = mapMarkToNumber mask m2) : m1 = m2 := by
+  obtain ⟨k1, e1, -, r1⟩ := (mark_number_roundtrip mask m1 hm).2 i1
+  obtain ⟨k2, e2, -, r2⟩ := (mark_number_roundtrip mask m2 hm).2 i2
+  rw [e1, e2] at he
+  have hk : k1 = k2 := Option.some.inj he
+  subst hk
+  rw [r1] at r2
+  exact Option.some.inj r2
 end CalicoVerif.C35
